@@ -58,5 +58,12 @@ extern __CPROVER_thread_local int __CPROVER_errno;
 # define V_CANARY()            __CPROVER_assert(0, "canary: reachable end of harness")
 #endif
 #define IMP(a, b) (!(a) || (b))
+/* clause lists: #define POST_<function>(X, args...)  X("name", condition) ...
+ * used once as the contract's ensures clauses and once as the harness' native/harness-mode checks;
+ * the engine maps a failed <function>.postcondition.N to the N-th entry's name */
+#define C_ENSURES(name, cond)  __CPROVER_ensures(cond)
+#define C_REQUIRES(name, cond) __CPROVER_requires(cond)
+#define H_ENS(name, cond)      V_ENS(name, cond);
+#define H_REQ(name, cond)      V_REQ(cond);
 
 #endif /* VERIF_H */
